@@ -162,7 +162,7 @@ def match_known(v, known):
     for k in known["findings"]:
         if k["property"] != v["property"]:
             continue
-        if k.get("group") not in (None, "*", v.get("group")):
+        if k.get("group") not in (None, "*") and v.get("group") not in k["group"].split("|"):
             continue
         if k.get("op") not in (None, "*", v.get("op")) and v.get("op") not in k.get("op", "").split("|"):
             continue
